@@ -2,7 +2,7 @@
    functions (the walker model carries no state across declarations), and the name-keyed
    `mutable_bindings` mutant does *)
 From Coq Require Import ZArith List Bool Lia.
-From Verif Require Import C03.Model C03.ProofsBase C03.Witness.
+From Verif Require Import C03.Model C03.ProofsBase C03.ProofsStmt C03.Witness.
 Import ListNotations.
 Open Scope N_scope.
 
@@ -41,4 +41,30 @@ Theorem mutname_mutant_refuted :
 Proof.
   split; [intros H; crush|]. split; [vm_compute; auto|]. split; [reflexivity|]. split; [reflexivity|].
   vm_compute; auto.
+Qed.
+
+(* within a body: only binding statements change what the walker knows; every other statement
+   (expression statements, compound assignments, if / while / for / match with all their nested
+   blocks, return) leaves the scope chain exactly as it found it *)
+Theorem scopes_only_by_bindings : forall fx G R S s,
+  (forall i k x a e, s <> SAssign i k x a e) -> fst (check_stmt fx G R S s) = S.
+Proof.
+  intros fx G R S s H. destruct s.
+  - exfalso. eapply H; eauto.
+  - rewrite cs_compound. destruct (lookup S x) as [[tx m]|]; [destruct (check_expr fx G R S e)|]; reflexivity.
+  - rewrite cs_if. reflexivity.
+  - rewrite cs_while. reflexivity.
+  - rewrite cs_for. destruct (check_expr fx G R S e). reflexivity.
+  - rewrite cs_return. destruct oe; [destruct (check_expr fx G R S e)|]; reflexivity.
+  - rewrite cs_expr. reflexivity.
+  - rewrite cs_match. destruct (check_expr fx G R S e). reflexivity.
+Qed.
+
+(* hence the events raised for the statements that FOLLOW do not depend on it *)
+Theorem non_binding_no_interference : forall fx G R S s b,
+  (forall i k x a e, s <> SAssign i k x a e) ->
+  check_block fx G R S (BCons s b) = snd (check_stmt fx G R S s) ++ check_block fx G R S b.
+Proof.
+  intros fx G R S s b H. rewrite cb_cons. assert (E := scopes_only_by_bindings fx G R S s H).
+  destruct (check_stmt fx G R S s) as [S' ev]. simpl in *. subst. reflexivity.
 Qed.
